@@ -78,7 +78,12 @@ def strict_ref(cfg, b):
     T, cc, enc = _cfg(cfg)
     r = decode_full(T, b, True, cc, enc)
     events, err = r.events, r.err
-    ref = RefDec(pinned_layout(), b)
+    if cfg["type"].startswith("harness.synth:"):
+        from .synth import layout as _syn_layout
+
+        ref = RefDec(_syn_layout(), b)
+    else:
+        ref = RefDec(pinned_layout(), b)
     rev, out = ref.run(cfg["type"], cc=cc, enc=enc)
     kind = out[0]
     if kind == "Undefined":
@@ -311,11 +316,9 @@ def warn_vs_strict(cfg, b):
     kind = kind_of(s.err)
     note("strict-rejects:" + kind)
     if k is None:
-        # no warning before warn mode ended: allowed only if it raised the very same documented error
-        # (unknown command code / selector without member are the documented warn-mode raises)
-        same = w.err is not None and _same_details(s.snaps["err"], w.snaps["err"])
-        ok_count = len(w.events) == len(s.events)
-        return [("warn-mode-no-warning-but-strict-rejects[%s]" % kind, all([w.crash is None, same, ok_count]))]
+        # strict mode rejects, so warn mode must deliver a warning (even the two documented warn-mode aborts -
+        # unknown command code, selector without member - are preceded by the value warning of the bad field)
+        return [("warn-mode-no-warning-but-strict-rejects[%s]" % kind, False)]
     head = w.events[:k]
     if kind == "Value":
         checks = [("value-warning-preceded-by-offending-event", k >= 1 and len(head) - 1 == len(s.events))]
